@@ -405,14 +405,19 @@ func (s *alphSim) reorg(depth, mode int) {
 	for _, ob := range old {
 		nb := s.newBlock(int32(len(s.main)))
 		s.main = append(s.main, nb)
-		if mode == 1 {
+		if mode%2 == 1 {
 			for _, tx := range ob.txs {
 				s.includeTx(tx, nb)
 			}
 		}
 	}
-	// the new branch is one block longer
-	s.main = append(s.main, s.newBlock(int32(len(s.main))))
+	if mode < 2 {
+		// the new branch is one block longer
+		s.main = append(s.main, s.newBlock(int32(len(s.main))))
+	} else {
+		// same height: the node switched to a sibling branch of equal length (heavier by weight)
+		s.stats.Fault("reorg-same-height")
+	}
 	s.version++
 }
 
@@ -1090,7 +1095,7 @@ func (s *alphSim) runStep(st simkit.Step) {
 		}
 		s.pump(s.now() + d)
 	case "reorg":
-		s.reorg(int(st.A), int(st.B)%2)
+		s.reorg(int(st.A), int(st.B)%4)
 		s.stats.Fault("reorg")
 		s.mu.Lock()
 		s.lastFaultAt = s.now()
@@ -1285,7 +1290,7 @@ func (alphHarness) Gen(seed uint64, prop, tier string) *simkit.Program {
 				add("adv", int64(r.Range(200, 4000))*sec, 0, 0, 0)
 			}
 		case 3:
-			add("reorg", int64(r.Range(1, 4)), int64(r.Intn(2)), 0, 0)
+			add("reorg", int64(r.Range(1, 4)), int64(r.Intn(4)), 0, 0)
 		case 4:
 			add("race", int64(r.Pick(6, 1, 1, 2, 3, 0, 1)), level(), int64(r.Intn(48)), int64(r.Intn(2)))
 			add("ev", int64(r.Pick(kindW...)), level(), int64(r.Intn(48)), 0)
@@ -1303,6 +1308,16 @@ func (alphHarness) Gen(seed uint64, prop, tier string) *simkit.Program {
 				add("adv", int64(r.Range(1, 40))*sec, 0, 0, 0)
 			}
 		}
+	}
+	if prop == "C08" && r.P(0.3) {
+		// an event that has its block confirmations but still waits out its confirmation time, while
+		// its block is replaced by a sibling branch of the same height and no further block arrives
+		l := int64(r.Range(1, 3))
+		add("ev", 0, l, int64(r.Intn(48)), 0)
+		add("blk", l+int64(r.Intn(2)), 0, 0, 0)
+		add("adv", 3*p.Cfg["poll_ms"], 0, 0, 0)
+		add("reorg", l+int64(r.Range(1, 3)), int64(2+r.Intn(2)), 0, 0)
+		add("adv", l*16*sec+int64(r.Range(1, 30))*sec, 0, 0, 0)
 	}
 	if prop == "C08" {
 		// let pending messages mature, re-observe some again afterwards
